@@ -35,6 +35,9 @@ _lib.trace_get.argtypes = [C.c_uint, C.POINTER(C.c_int), C.POINTER(C.c_uint), C.
 def _u32(v): return int(v) % (1 << 32)
 
 
+RECORD = None      # set to a list to record every item handed to the finalizer (glue-level checks)
+
+
 class combinator_result:
     cat_id = 0; rule_id = 0; head_is_left = False; op_string = b''; op_symbol = b''
 
@@ -117,6 +120,9 @@ def parse_sentence(tag, dep, length, roots, bcb, ucb, finalizer, scaffold, fargs
 
     def fin(item, tok, c, a):
         try:
+            if RECORD is not None:
+                nd = _node(_Item(item))
+                RECORD.append({'node': nd, 'cached': _cached_for(nd, c), 'fargs': fargs})
             return _u32(finalizer(_Item(item), tok, cache_type(c), fargs))
         except BaseException as e:
             err.append(e); return 0
@@ -136,6 +142,26 @@ def _node(it):
     return {'fin': it.fin, 'cat': it.cat, 'in': it.in_score, 'out': it.out_score, 'start': it.start_of_span, 'len': it.span_length,
             'head': it.head_id, 'rule': it.rule_id,
             'left': _node(it.left) if it.left is not None else None, 'right': _node(it.right) if it.right is not None else None}
+
+
+def _cached_for(nd, c):
+    """the cached rule results for every (children ids) key the item tree uses, copied out while the cache is alive"""
+    out = {}
+
+    def walk(x):
+        if x is None:
+            return
+        if x['fin']:
+            return walk(x['left'])
+        if x['left'] is not None:
+            key = (x['left']['cat'], x['right']['cat'] if x['right'] is not None else UINT_MAX)
+            if key not in out:
+                n_ = _lib.cache_len(c, key[0], key[1])
+                out[key] = [(_lib.cache_cat_id(c, key[0], key[1], i), _lib.cache_op_string(c, key[0], key[1], i).decode('utf-8'),
+                             _lib.cache_op_symbol(c, key[0], key[1], i).decode('utf-8'), bool(_lib.cache_head_is_left(c, key[0], key[1], i))) for i in range(n_)]
+            walk(x['left']); walk(x['right'])
+    walk(nd)
+    return out
 
 
 def read_trace():
